@@ -29,6 +29,7 @@ func (a symAddr) String() string  { return a.ap }
 var errSymClosed = errors.New("use of closed network connection")
 var errSymReset = errors.New("connection reset by peer")
 var errSymWrite = errors.New("write: broken pipe")
+var errSymTimeout = errors.New("write: i/o timeout")
 
 type symConn struct {
 	name            string
@@ -39,6 +40,7 @@ type symConn struct {
 	final           bool     // no more data will be delivered
 	endMode         int
 	shortReads      int
+	wdl             time.Time // write deadline (zero: none)
 	reads           int
 	more            chan struct{}
 	closed          bool
@@ -145,6 +147,9 @@ func (c *symConn) Write(p []byte) (int, error) {
 	if c.failWrites {
 		return 0, errSymWrite
 	}
+	if !c.wdl.IsZero() && !c.wdl.After(time.Now()) {
+		return 0, errSymTimeout
+	}
 	cp := make([]byte, len(p))
 	copy(cp, p)
 	c.writes = append(c.writes, cp)
@@ -166,9 +171,11 @@ func (c *symConn) LocalAddr() net.Addr {
 func (c *symConn) RemoteAddr() net.Addr {
 	return symAddr{net.JoinHostPort(c.remote.String(), "40000")}
 }
-func (c *symConn) SetDeadline(t time.Time) error      { return nil }
+// write deadlines are honoured (a Write at or after the deadline fails, as net.Conn documents);
+// read deadlines are not modelled (corebgp sets none)
+func (c *symConn) SetDeadline(t time.Time) error      { c.wdl = t; return nil }
 func (c *symConn) SetReadDeadline(t time.Time) error  { return nil }
-func (c *symConn) SetWriteDeadline(t time.Time) error { return nil }
+func (c *symConn) SetWriteDeadline(t time.Time) error { c.wdl = t; return nil }
 
 // frame helpers (reference, RFC 4271 §4.1)
 
@@ -382,6 +389,9 @@ func fsmNegotiated(p *peer, conn net.Conn, remoteHold uint16, remoteID uint32) *
 	c.avail = 2
 	wasFinal := c.final
 	c.final = false
+	// the short reads are for the messages under test, not for the setup OPEN
+	wasShort := c.shortReads
+	c.shortReads = 0
 	verifAssume(verifAnd(remoteID>>24 < 224, verifNot(verifAnd(p.config.LocalAS == p.config.RemoteAS, p.id == remoteID))))
 	f := fsmInOpenSent(p, conn)
 	to, err := f.openSent()
@@ -393,6 +403,7 @@ func fsmNegotiated(p *peer, conn net.Conn, remoteHold uint16, remoteID uint32) *
 		mp.nOpen, mp.events = 0, nil
 	}
 	c.pos = 0
+	c.shortReads = wasShort
 	c.deliver(wasAvail+2, wasFinal)
 	return f
 }
